@@ -3,6 +3,7 @@
 package bldrun
 
 import (
+	"encoding/base64"
 	"encoding/json"
 	"fmt"
 	"sort"
@@ -47,6 +48,9 @@ func Clone(v any) any {
 	}
 	return v
 }
+
+// IsEmpty: null, an empty array or an empty object.
+func IsEmpty(v any) bool { return isEmpty(v) }
 
 func isEmpty(v any) bool {
 	switch x := v.(type) {
@@ -152,12 +156,32 @@ func DiffPaths(a, b any) []JPath {
 			}
 			return
 		}
-		if Canon(x) != Canon(y) {
+		if Canon(x) != Canon(y) && !sameBytes(x, y) && !sameBytes(y, x) {
 			out = append(out, at)
 		}
 	}
 	rec(Lenient(a), Lenient(b), nil)
 	return out
+}
+
+// sameBytes: encoding/json writes a []uint8 as a base64 string; a list of
+// small numbers and the base64 text of the same bytes are the same value.
+func sameBytes(list, text any) bool {
+	l, ok := list.([]any)
+	s, ok2 := text.(string)
+	if !ok || !ok2 {
+		return false
+	}
+	raw, err := base64.StdEncoding.DecodeString(s)
+	if err != nil || len(raw) != len(l) {
+		return false
+	}
+	for i, e := range l {
+		if Canon(e) != fmt.Sprint(int(raw[i])) {
+			return false
+		}
+	}
+	return true
 }
 
 // HasPrefix reports whether p starts with q.
@@ -189,6 +213,9 @@ func ValueClass(v any) string {
 		}
 		return "array"
 	case string:
+		if x == "" {
+			return "empty string"
+		}
 		return "string"
 	case bool:
 		return "bool"
